@@ -105,6 +105,13 @@ theorem C06_resolve_total (tt : TypeTable) (root : Option Val) (path : String) (
     resolve Skeleton.current tt root path nargs ≠ .crash w :=
   C06_resolve_total_of Skeleton.current ⟨⟨by decide, by decide⟩, by decide⟩ tt root path nargs w
 
+/-- A peer that stalls inside a closure invocation (it sends a valid `CallClosure` and never answers
+    what the closure asks of it) holds no panrpc lock on our side: `CallClosure` releases the closure
+    table's mutex before it runs the closure.  So the registry-wide closure table stays usable for
+    every other link (checked against the regenerated skeleton). -/
+theorem C06_stalled_peer_holds_no_lock :
+    Skeleton.current.clInvokeOutsideLock = true ∧ Skeleton.current.clLockIsMutex = true := by decide
+
 end Panrpc.Lk
 
 #print axioms Panrpc.Lk.C06_crash_on_pinned_nil_iface
@@ -114,3 +121,4 @@ end Panrpc.Lk
 #print axioms Panrpc.Lk.C06_resolve_total_partial
 #print axioms Panrpc.Lk.C06_resolve_total_of
 #print axioms Panrpc.Lk.C06_resolve_total
+#print axioms Panrpc.Lk.C06_stalled_peer_holds_no_lock
